@@ -121,7 +121,9 @@ struct Built {
     Avoid::Router *router = nullptr;
     std::vector<Avoid::ShapeRef *> shapes;
     std::vector<Avoid::ConnRef *> conns;
-    ~Built() { delete router; }
+    // when a library assertion (thrown as vpsc::CriticalFailure in the monitor build) unwinds through here the router's state is
+    // undefined: abandon it instead of running its destructor
+    ~Built() { if (!std::uncaught_exception()) delete router; }
 };
 inline Avoid::Polygon toPolygon(const IPoly &pl) { Avoid::Polygon pg((int)pl.size()); for (size_t i = 0; i < pl.size(); i++) pg.ps[i] = Avoid::Point((double)pl[i].x, (double)pl[i].y); return pg; }
 inline void build(const Scene &S, Built &B, bool transactions = true) {
